@@ -367,7 +367,10 @@ def gen_gate(repo, out, report):
                 if is_p(y, ';'): return False
                 if is_p(y, '?'): return True
             return False
-        locals_first = i_def is not None and q3(i_def) and (i_loc is None or i_def < i_loc)
+        # nothing may leave or skip the iteration between the reads of a locals group and its validation (an early `continue` for, say, empty
+        # groups would let an unvalidated value type through)
+        no_early_exit = i_def is not None and not any(is_id(toks3[j], 'continue') or is_id(toks3[j], 'break') or is_id(toks3[j], 'return') for j in range(i_rd, i_def))
+        locals_first = i_def is not None and q3(i_def) and (i_loc is None or i_def < i_loc) and no_early_exit
     # the binary reader is configured with the same feature set as the validator (`parser.set_features(wasm_features)`),
     # and both get the set computed by get_wasmparser_wasm_features
     btoks = list(flat(body.items))
